@@ -164,6 +164,8 @@ def explore(check, cfgs, alpha_args, bounds, budget_s=None, workers=None, log=pr
     with ctx.Pool(workers, initializer=_init_worker, initargs=(check, cfgs, alpha_args)) as pool:
         for ci, cfg in enumerate(cfgs):
             _bfs(pool, check, ci, cfg, bounds, res, t_start, budget_s, workers, log)
+            if os.environ.get("TFMC_FAIL_FAST") and res.violations:
+                break
     return res
 
 
@@ -223,6 +225,9 @@ def _bfs(pool, check, ci, cfg, bounds, res, t_start, budget_s, workers, log):
         log(f"  [{cfg['name']}] depth {depth}: +{len(new_frontier)} states (total {states}), {transitions} transitions, {time.time() - t0:.1f}s")
         if not new_frontier:
             closed = True
+        if os.environ.get("TFMC_FAIL_FAST") and res.violations:
+            capped = f"fail-fast: stopped after depth {depth} because violations were found"
+            break
     if not frontier:
         closed = True
     res.states += states
